@@ -17,16 +17,25 @@
        of the oracle calls THE RUN ISSUES (read off the trace, Proofs/SweepsRun.v: dmrg_call_ok): block QR = LAPACK's
        contract; local eigensolver = Ritz contract (|A'| = 1, theta = <A'|H_eff A'>, theta <A|A> <= <A|H_eff A> for the start
        tensor A: what eigh_krylov returns, C15), MPS.orthonormalize returns right-isometric tensors.
+     * C10_dmrg2_whole_run: the same five conclusions for the whole two-site run (L >= 2, any number of sweeps, any bond
+       profile, zero split tolerance), relative to the contracts of the calls the run issues (Proofs/Sweeps2Run.v:
+       dmrg2_call_ok): Ritz contract for the merged two-site problem (tensors of physical dimension d*d, merged MPO tensor);
+       every split_mps_tensor call is EXACT: the minimiser factors entrywise through the two answers (merging undoes the
+       split, C03_merge_split_id) and the factor that did not receive the singular values is an isometry ('right': A[i]
+       left-isometric, 'left': A[i+1] right-isometric; C10_split_contract_spec); LAPACK's contract for the final QR.
+       Induction over the two-site schedule with the invariant "sites < i left-isometric, sites > i+1 right-isometric, BL / BR
+       the blocks of those sites" (Proofs/Sweeps2Inv.v: Z2); after a 'right' split the centre is handed to site i+1, the
+       right-to-left sweep enters its first pair with the centre on the left and all later pairs with the centre on the right.
      * per local problem (one-site): C10_dmrg_energy_is_expectation, C10_dmrg_variational, C10_dmrg_monotone; which energy a
        sweep records (C10_dmrg1_reported_energy, C10_dmrg2_reported_energy); the call schedule of both algorithms.
-   PARTIAL: two-site DMRG is covered per local problem only (C10_two_site_energy_partial with the merged tensors; the
-   induction over the two-site sweep needs the SVD-split contract and is not mechanised); reaching the exact ground energy on
-   a complete manifold (spectral theory) is not attempted; rounding is measured by prop(); H is an argument of the model that
+   PARTIAL: reaching the exact ground energy on a complete manifold (spectral theory) is not attempted; a split with tol > 0 is
+   outside the theorem (monotonicity is false then); rounding is measured by prop(); H is an argument of the model that
    nothing returns or updates (the plugin compares bytes). *)
 From Coq Require Import ZArith QArith Qcanon List Bool Lia.
 From PT Require Import Base.Scalar Base.Field Base.BigSum Base.Mx Model.Tensor Model.Operation Model.Sweeps
-  Proofs.OperationLocal Proofs.OperationUniform Proofs.OperationTwoSite
-  Proofs.SweepsSched Proofs.SweepsCanon Proofs.SweepsLocal Proofs.SweepsGauge Proofs.SweepsRun Proofs.SweepsCheck Proofs.SweepsExample.
+  Proofs.OperationEntries Proofs.OperationLocal Proofs.OperationUniform Proofs.OperationTwoSite
+  Proofs.SweepsSched Proofs.SweepsCanon Proofs.SweepsLocal Proofs.SweepsGauge Proofs.SweepsRun Proofs.SweepsCheck Proofs.SweepsExample
+  Proofs.Sweeps2Inv Proofs.Sweeps2Run Proofs.Sweeps2Check Proofs.Sweeps2Example.
 Import ListNotations.
 
 (* WHOLE RUN, single-site.  E0 = energy of the (normalised) state after the initial right-orthonormalisation. *)
@@ -59,6 +68,48 @@ Theorem C10_dmrg1_whole_run_gen : forall (F : ofield) orth qr keig (H : mpo (Cx 
   (ens <> [] -> last ens (k0 (Cx F)) = denergy d L A (o_A H)).
 Proof. exact dmrg1_run_gen. Qed.
 Print Assumptions C10_dmrg1_whole_run_gen.
+
+(* WHOLE RUN, two-site (tol_split = 0).  [rtr2_ok ... (rev tr)]: every call recorded in the emitted trace tr meets its contract
+   (Proofs/Sweeps2Run.v: dmrg2_call_ok — keig_ok (d*d) with the merged MPO tensor for the calls EIG2, split_ok for the
+   split_mps_tensor calls SPLITL / SPLITR, qr_ok for the final QR of each sweep). *)
+Theorem C10_split_contract_spec : forall (R : cring) d left (Am A0 A1 : site R) q,
+  split_ok d left Am (A0, A1, q) <->
+  (forall Dl Dr, site_ok (d * d) Dl Dr Am ->
+     exists k, site_ok d Dl k A0 /\ site_ok d k Dr A1 /\
+       (forall s t a e, (s < length A0)%nat -> (t < d)%nat -> (a < Dl)%nat -> (e < Dr)%nat ->
+          get (sel Am (s * d + t)) a e = sumn k (fun j => kmul R (get (sel A0 s) a j) (get (sel A1 t) j e))) /\
+       (if left then right_iso A1 else left_iso A0)).
+Proof. exact split_ok_spec. Qed.
+Print Assumptions C10_split_contract_spec.
+
+Theorem C10_dmrg2_whole_run : forall (F : ofield) orth qr split keig (H : mpo (Cx F)) psi n d DsW Ds0 lam A qD ens tr,
+  dmrg_twosite orth qr split keig H psi n = Some (A, qD, ens, tr) ->
+  mpo_shapeb d DsW (o_A H) = true -> mps_shapeb d Ds0 (m_A (fst (orth psi))) = true ->
+  Forall right_iso (m_A (fst (orth psi))) ->
+  (2 <= length (o_A H))%nat -> bounded_below d (length (o_A H)) (o_A H) lam ->
+  rtr2_ok qr split keig (o_A H) d (rev tr) ->
+  let L := length (o_A H) in
+  let E0 := denergy d L (m_A (fst (orth psi))) (o_A H) in
+  dnorm2 d L A = k1 (Cx F) /\ length ens = n /\
+  Forall (fun e => fle F lam (cre e) /\ fle F (cre e) (cre E0)) ens /\ noninc ens /\
+  (ens <> [] -> last ens (k0 (Cx F)) = denergy d L A (o_A H)).
+Proof. exact dmrg2_run. Qed.
+Print Assumptions C10_dmrg2_whole_run.
+
+Theorem C10_dmrg2_whole_run_gen : forall (F : ofield) orth qr split keig (H : mpo (Cx F)) psi n d DsW Ds0 (LB : Cx F -> Prop) A qD ens tr,
+  dmrg_twosite orth qr split keig H psi n = Some (A, qD, ens, tr) ->
+  mpo_shapeb d DsW (o_A H) = true -> mps_shapeb d Ds0 (m_A (fst (orth psi))) = true ->
+  Forall right_iso (m_A (fst (orth psi))) ->
+  (2 <= length (o_A H))%nat ->
+  (forall B : list (site (Cx F)), dnorm2 d (length (o_A H)) B = k1 (Cx F) -> LB (denergy d (length (o_A H)) B (o_A H))) ->
+  rtr2_ok qr split keig (o_A H) d (rev tr) ->
+  let L := length (o_A H) in
+  let E0 := denergy d L (m_A (fst (orth psi))) (o_A H) in
+  dnorm2 d L A = k1 (Cx F) /\ length ens = n /\
+  Forall (fun e => LB e /\ fle F (cre e) (cre E0)) ens /\ noninc ens /\
+  (ens <> [] -> last ens (k0 (Cx F)) = denergy d L A (o_A H)).
+Proof. exact dmrg2_run_gen. Qed.
+Print Assumptions C10_dmrg2_whole_run_gen.
 
 (* ---- one local problem in mixed-canonical form (theta, X') = answer of the local eigensolver for the start tensor X ---- *)
 Theorem C10_dmrg_energy_is_expectation : forall (F : ofield) d Ds (Al Ar : list (site (Cx F))) (Wl Wr : list (osite (Cx F))) (X' : site (Cx F)) (W : osite (Cx F))
@@ -154,3 +205,24 @@ Theorem C10_example_contracts_hold : forall A qD ens tr,
   dmrg_singlesite ex_orth ex_qr keig_id exH exPsi 2 = Some (A, qD, ens, tr) -> dtr_okb ex_qr (rev tr) = true ->
   rtr_ok ex_qr keig_id (o_A exH) 2 (rev tr).
 Proof. intros A qD ens tr _ H. apply rtr_ok_id. exact H. Qed.
+
+(* the two-site whole-run theorem on the rational instance of Proofs/Sweeps2Example.v (L = 3, H = ZIZ + ZXI + XZI, bond
+   dimensions 1-2-2-1, two sweeps, exact rational split oracle, Rayleigh-quotient eigensolver): the run succeeds, every
+   hypothesis except the semantic one on H holds by evaluation (contracts of all 20 recorded calls — 6 EIG2, 6 splits, 2 QR —
+   by the boolean versions of Proofs/Sweeps2Check.v), and the conclusions are non-trivial (energies 208201/390625) *)
+Example C10_dmrg2_whole_run_nonvacuous :
+  match dmrg_twosite ex_orth ex_qr ex3_split keig_id ex3H ex3Psi 2 with
+  | Some (A, qD, ens, tr) =>
+      mpo_shapeb 2 [1; 2; 2; 1]%nat (o_A ex3H) && mps_shapeb 2 [1; 2; 2; 1]%nat (m_A (fst (ex_orth ex3Psi)))
+      && forallb right_isob (m_A (fst (ex_orth ex3Psi))) && Nat.leb 2 (length (o_A ex3H)) && dtr2_okb ex_qr ex3_split 2 (rev tr)
+      && Nat.eqb (length tr) 20 && Nat.eqb (length ens) 2
+      && Nat.eqb (length (filter (fun t => match c_kind (t_call t) with SPLITL | SPLITR => true | _ => false end) tr)) 6
+      && keqb CQ (dnorm2 2 3 A) (k1 CQ) && keqb CQ (last ens (k0 CQ)) (denergy 2 3 A (o_A ex3H))
+      && negb (keqb CQ (last ens (k0 CQ)) (k0 CQ)) && negb (list_eqb (fun a b => list_eqb mxeqb a b) A (m_A ex3Psi))
+  | None => false
+  end = true.
+Proof. vm_compute. reflexivity. Qed.
+Theorem C10_example2_contracts_hold : forall A qD ens tr,
+  dmrg_twosite ex_orth ex_qr ex3_split keig_id ex3H ex3Psi 2 = Some (A, qD, ens, tr) -> dtr2_okb ex_qr ex3_split 2 (rev tr) = true ->
+  rtr2_ok ex_qr ex3_split keig_id (o_A ex3H) 2 (rev tr).
+Proof. intros A qD ens tr _ H. apply rtr2_ok_id. exact H. Qed.
